@@ -77,13 +77,23 @@ class P(Prop):
             "bytes are compared with the Coq wire model; round trips through serde_json text (finite contents), serde_cbor and borsh "
             "are executed on the crate and compared bit for bit; contents: subnormals, -0.0, extremes, +-inf (binary formats), random "
             "bit patterns; every type once with +-inf in every position and once with +-f64::MAX / its neighbour / smallest subnormal / "
-            "-0.0 in every position. non-trivial = contains a number whose bits are not those of a small integer; distinct by input")
+            "-0.0 in every position and once with whole numbers (2^k, around 2^63 / 1e19, ...); piecewise serialisations preceded by "
+            "a failed attempt (3-byte writer, or a NaN-carrying value borsh refuses). non-trivial = contains a number whose bits are not those of a small integer; distinct by input")
     TRUSTED = ["wire model (shapes of the derives) hand-written, tied by correspondence; the theorem covers the borsh byte codec",
                "float <-> text conversion (ryu, serde_json parser) and serde_cbor are exercised, not modelled"]
     ASSUMPTIONS = ["without the borsh feature only the serde part applies; the harness builds the crate with the feature on"]
 
+    def whole(self, rng):
+        """whole numbers of every magnitude (formats may choose an integer representation for them)"""
+        k = rng.choice([0, 1, 10, 31, 32, 52, 53, 62, 63, 63, 64, 64, 70, 100, 1000])
+        v = rng.choice([2.0 ** k, 2.0 ** k * rng.uniform(1.0, 1.99), 9.5e18, 9.3e18, 1e19, 1.8e19, 2.0 ** 63 * 1.01, 1e15 + 1])
+        v = float(int(v)) if v < 2.0 ** 1000 else v
+        return C.bits(rng.choice([1.0, -1.0]) * v)
+
     def num(self, rng, finite_only=False):
         r = rng.random()
+        if r < 0.08:
+            return self.whole(rng)
         if r < 0.3:
             return C.bits(rng.choice(SPECIAL))
         if r < 0.4 and not finite_only:
@@ -110,6 +120,7 @@ class P(Prop):
             EXT = [C.bits(1.7976931348623157e308), C.bits(-1.7976931348623157e308), C.bits(5e-324), C.bits(-0.0),
                    C.bits(2.2250738585072014e-308), C.bits(1.7976931348623155e308)]
             out.append(dict(op="wire", ty=ty, v=[rng.choice(INF) for _ in range(n)], meta={"class": "value_inf/" + ty.split("<")[0]}))
+            out.append(dict(op="wire", ty=ty, v=[self.whole(rng) for _ in range(n)], meta={"class": "value_whole/" + ty.split("<")[0]}))
             out.append(dict(op="wire", ty=ty, v=[rng.choice(EXT) for _ in range(n)], meta={"class": "value_extreme/" + ty.split("<")[0]}))
         for _ in range(40 if tier == "quick" else 500):
             t = rng.choice(G.ALL_TYPES)
@@ -122,10 +133,24 @@ class P(Prop):
                 for sgm in segs:
                     if rng.random() < 0.5:
                         sgm[rng.randrange(n)] = rng.choice(pool)
-            out.append(dict(op="wire", ty="Piecewise<%s>" % t, segs=segs, meta={"class": "piecewise/%s" % ("long" if cnt > 50 else "short")}))
+            case = dict(op="wire", ty="Piecewise<%s>" % t, segs=segs, meta={"class": "piecewise/%s" % ("long" if cnt > 50 else "short")})
+            r = rng.random()
+            if r < 0.12:
+                # an attempt that fails half way (3-byte writer) just before the real one
+                case["prefail"] = True
+                case["meta"]["class"] += "+prefail"
+            elif r < 0.2 and cnt >= 2:
+                # a value borsh refuses (NaN in the LAST piece): not in the property's domain itself, but nothing it leaves
+                # behind may influence the following serialisations
+                poison = dict(op="wire", ty=case["ty"], segs=[list(sg) for sg in segs], meta={"class": "poison"})
+                poison["segs"][-1][-1] = C.NAN_BITS
+                out.append(poison)
+            out.append(case)
         return out
 
     def coq_term(self, case, h):
+        if case["meta"].get("class") == "poison":
+            return None
         ty = case["ty"]
         if ty.startswith("Piecewise<"):
             inner = "Segment<%s>" % ty[10:-1]
@@ -142,6 +167,8 @@ class P(Prop):
         return Prop.compare(self, case, hres, mres)
 
     def oracle(self, case, h):
+        if case.get("meta", {}).get("class") == "poison":
+            return None
         if h["r"] == "PANIC":
             return "serialisation panicked: %s" % h.get("msg")
         r = h["r"]
